@@ -119,6 +119,9 @@ C16Cases(z) ==
     \cup {Whole(f, "device", FALSE) : f \in UnsupportedFrames \cup OutOfLimitFrames \cup TruncatedFrames \cup BadCountFrames}
     \cup {GiantCase(n) : n \in {65535, 65531}}
     \cup {Whole(f, h, TRUE) : f \in {Frame("f3", 4660), Frame("f16", 4660)}, h \in Handlers}
+    \* the same with the server's default error callback (OnErrorFunc left unset)
+    \cup {[op |-> "stream", frames |-> <<f>>, segs |-> <<Len(f)>>, handler |-> h, e2e |-> TRUE, defaults |-> TRUE] :
+            f \in {Frame("f3", 4660), Frame("f6", 4660)}, h \in Handlers}
     \cup {Whole(f, "device", TRUE) : f \in {Hdr(4660, 6, 9) \o <<7, 0, 1, 0, 1>>, TCPADU(4660, 1, ReqPDU(R(3, 1, 0, 126, <<>>, 0, 0))),
                                             Hdr(4660, 3, 1) \o <<3, 0>>, TCPADU(4660, 1, <<16, 0, 1, 0, 2, 255, 1, 2, 3, 4>>)}}
 
